@@ -25,7 +25,7 @@ from vlib import sqlo
 PROP = 'C12'
 META = {
     'extractors': ['graph', 'pydestroy'],
-    'technique': ('TRANSLATOR tie: main.py destroySelf / findDependantColumns are translated from the AST on every run into a deep embedding '
+    'technique': ('TRANSLATOR tie: main.py destroySelf / findDependantColumns / findDependencies are translated from the AST on every run into a deep embedding '
                   '(Model/PyDestroy.lean) and the translated program is proved, by symbolic execution with loop invariants, to compute exactly '
                   'the hand model (C12_translated_destroySelf_eq_model: translated destroySelf with the recursive call bound to destroy S n '
                   '= destroy S (n+1), for every schema, database with unique ids, victim and budget) + '
@@ -46,10 +46,9 @@ META = {
     'trusted': ['Model/Graph.lean `destroy` is tied to main.py destroySelf by the translator proof C12_translated_destroySelf_eq_model and `depCols` to '
                 'findDependantColumns by C12_translated_findDependantColumns_eq_model, under the interface assumptions listed in the header of '
                 'Model/GraphX.lean (what select / count / iteration of a select result / getattr(row, name) / row.set / syncUpdate / the link-table DELETE / '
-                '_SO_delete / cache.expire / the signals do; _SO_depends() = the model\'s `dependents`: findDependencies is translated '
-                '(Extracted/PyDestroy.lean) but not yet proved equal to `dependents`); those assumptions and the reference semantics of the '
-                'embedding are what the differential run still ties',
-                'Model/Graph.lean mirrors main.py findDependencies by hand (tied by the correspondence run)',
+                '_SO_delete / cache.expire / the signals do); `dependents` is tied to findDependencies (= _SO_depends, text-checked) by '
+                'C12_translated_findDependencies_eq_model; those interface assumptions and the reference semantics of the embedding '
+                '(Model/PyDestroy.lean) are what the differential run still ties',
                 'the two link-row DELETE statements of destroySelf (template, column, loop guard) are read from the AST into '
                 'Extracted/Graph.lean and the model deletes by the extracted column; the rest of destroySelf is control flow, tied by the differential run'],
     'modelled': ['SQLite engine (DELETE / UPDATE / lazy cursor of the dependent select; executed, not verified)',
